@@ -224,6 +224,8 @@ func runCheck(o checkOpts) int {
 	extra := runExtras(eng, o)
 
 	violations := 0
+	allowedUnreachable := loadAllowedUnreachable(filepath.Join(o.verifDir, "expected_unreachable.json"))
+	var unreachable []string
 	var records []obRecord
 	var samples []interface{}
 	obligations, discharged := 0, 0
@@ -274,6 +276,9 @@ func runCheck(o checkOpts) int {
 		for _, n := range rep.Notes {
 			assumptions = append(assumptions, rep.Key+": "+n)
 		}
+		for _, n := range rep.Fx.assumes {
+			assumptions = append(assumptions, rep.Key+": "+n)
+		}
 		allOK := true
 		fnProps := rep.Fx.ct.propSet()
 		// alternative groups: a group passes when all clauses of one alternative pass
@@ -320,6 +325,16 @@ func runCheck(o checkOpts) int {
 				if o.prop == "ALL" {
 					relevant = true
 				}
+			}
+			if r.Ob.Cover && strings.HasPrefix(r.Ob.Label, "cover:ret") {
+				if r.Status == "vacuous" {
+					unreachable = append(unreachable, r.Ob.Name)
+					if !allowedUnreachable[r.Ob.Name] {
+						allOK = false
+						violate(r.Ob.Name, fmt.Sprintf("obligation: %s\nvacuity: this return is unreachable under the contracts in force (its path condition is unsatisfiable), so every postcondition there holds vacuously; on the pinned tree it was reachable. Either an assumed contract became contradictory or the code before it changed.\n", r.Ob.Name), true)
+					}
+				}
+				continue
 			}
 			if r.Ob.Cover {
 				if r.Status == "vacuous" {
@@ -438,6 +453,7 @@ func runCheck(o checkOpts) int {
 		"samples":                  samples,
 		"obligation_records":       records,
 		"integer_semantics":        "mathematical integers with a discharged in-range obligation at every arithmetic site",
+		"unreachable_returns":      unreachable,
 	}
 	if len(extra) > 0 {
 		var bs []interface{}
@@ -494,4 +510,19 @@ func writeEvidence(path string, o checkOpts, cov map[string]interface{}, _ inter
 	}
 	data, _ := json.MarshalIndent(ev, "", " ")
 	os.WriteFile(path, data, 0o644)
+}
+
+func loadAllowedUnreachable(path string) map[string]bool {
+	m := map[string]bool{}
+	data, err := os.ReadFile(path)
+	if err != nil {
+		return m
+	}
+	var names []string
+	if json.Unmarshal(data, &names) == nil {
+		for _, n := range names {
+			m[n] = true
+		}
+	}
+	return m
 }
